@@ -47,8 +47,23 @@ import (
 	"github.com/libp2p/go-libp2p-xor/trie"
 )
 
-const c16Watchdog = 500 * time.Millisecond // a call still running after this is recorded as a hang
-const c16StageWait = 5 * time.Second       // bound on every wait of the swap staging
+const c16StageWait = 30 * time.Second // bound on every wait of the swap staging
+
+// c16Patience is how long a call may run before it is recorded as a hang.  A
+// lookup on 200 peers takes microseconds, but on a loaded machine a goroutine
+// can be starved for a long time, so the bound is generous (30 s) - except
+// when the paging step the code is about to compute is zero on a non-empty
+// table, the one configuration known to spin: then half a second is enough
+// and keeps the run short.  The verdict is always what was observed.
+func c16Patience(d *FullRT) time.Duration {
+	d.rtLk.RLock()
+	n := d.rt.Size()
+	d.rtLk.RUnlock()
+	if d.bucketSize+2*d.ipDiversityFilterLimit == 0 && n > 0 {
+		return 500 * time.Millisecond
+	}
+	return 30 * time.Second
+}
 
 // ---------------------------------------------------------------- fake host
 
@@ -438,11 +453,12 @@ func c16StartClosest(d *FullRT, key string, park chan struct{}) *c16Call {
 func c16Unspin(d *FullRT) { d.rt = trie.New() }
 
 func c16Closest(d *FullRT, key string) c16Obs {
+	patience := c16Patience(d)
 	c := c16StartClosest(d, key, nil)
 	select {
 	case <-c.done:
 		return c.obs
-	case <-time.After(c16Watchdog):
+	case <-time.After(patience):
 		c16Unspin(d)
 		select {
 		case <-c.done:
@@ -1278,16 +1294,25 @@ func c16CaseSwap(e *c16Env, i int, r *vfRand) bool {
 		close(g1)
 		return fail("second crawl did not run")
 	}
-	if !c16Until(func() bool { return c16WriterPending(&d.peerAddrsLk) }) {
+	if !c16Until(func() bool {
+		return c16WriterPending(&d.peerAddrsLk) || c16WriterPending(&d.kMapLk) || c16WriterPending(&d.rtLk)
+	}) {
 		close(g1)
 		return fail("crawler goroutine did not reach the swap")
 	}
 	g2 := make(chan struct{})
 	r2 := c16StartClosest(d, key, g2)
-	if !c16Until(func() bool { return c16Readers(&d.kMapLk) >= 2 }) {
-		close(g1)
-		close(g2)
-		return fail("R2 did not take kMapLk")
+	threeStep := c16WriterPending(&d.peerAddrsLk)
+	if threeStep {
+		// the code as it is: the writer takes peerAddrsLk first, R2 can get in behind R1
+		if !c16Until(func() bool { return c16Readers(&d.kMapLk) >= 2 }) {
+			close(g1)
+			close(g2)
+			return fail("R2 did not take kMapLk")
+		}
+	} else {
+		// the writer waits for a lock readers take earlier: R2 queues behind it
+		time.Sleep(2 * time.Millisecond)
 	}
 	close(g1) // R1 finishes; the writer swaps peerAddrs and stops at kMapLk; R2 reads stage 1
 	<-r1.done
@@ -1301,7 +1326,10 @@ func c16CaseSwap(e *c16Env, i int, r *vfRand) bool {
 		close(g2)
 		return fail("R2 neither parked nor returned")
 	}
-	if r2parked {
+	if r2parked && !threeStep {
+		close(g2)
+		<-r2.done
+	} else if r2parked {
 		if c16Until(func() bool { return c16WriterPending(&d.kMapLk) }) {
 			r3 := c16StartClosest(d, key, nil)
 			if c16Until(func() bool { return c16Readers(&d.rtLk) >= 2 }) {
@@ -1361,6 +1389,7 @@ func (o c16OpObs) coq() string {
 }
 
 func c16RunOp(d *FullRT, f func() error) c16OpObs {
+	patience := c16Patience(d) + 500*time.Millisecond
 	done := make(chan c16OpObs, 1)
 	go func() {
 		defer func() {
@@ -1377,7 +1406,7 @@ func c16RunOp(d *FullRT, f func() error) c16OpObs {
 	select {
 	case o := <-done:
 		return o
-	case <-time.After(c16Watchdog + 300*time.Millisecond):
+	case <-time.After(patience):
 		c16Unspin(d)
 		select {
 		case <-done:
